@@ -5,7 +5,7 @@ CONSTANTS
   Lvls = {1, 2, 3, 4}
   Shapes <- ShapesAll
   Tombs = {TRUE, FALSE}
-  MaxEnv = 3
+  MaxEnv = 2
   OutShapes <- ShapesTwo
   KeepHist = FALSE
   MaxHist = 0
